@@ -98,6 +98,44 @@ def item_map(res):
     return {k: sorted(map(str, v)) for k, v in out.items()}
 
 
+NUMERIC = ("i8", "u8", "i16", "u16", "i32", "u32", "i64", "u64", "f32", "f64", "::std::num::NonZero")
+FITS = {
+    "array": lambda t: t["kind"] in ("vec", "set", "tuple", "array"),
+    "string": lambda t: t["kind"] in ("string", "enum") or (t["kind"] == "builtin" and not (t.get("builtin") or "").startswith(NUMERIC)
+                                                             and t.get("builtin") != "bool"),
+    "integer": lambda t: t["kind"] == "builtin" and (t.get("builtin") or "").startswith(NUMERIC),
+    "number": lambda t: t["kind"] == "builtin" and (t.get("builtin") or "").startswith(NUMERIC),
+    "boolean": lambda t: t["kind"] == "builtin" and t.get("builtin") == "bool",
+    "object": lambda t: t["kind"] in ("struct", "map", "enum", "unit") or (t["kind"] == "builtin" and "serde_json" in (t.get("builtin") or "")),
+}
+
+
+def kind_mismatch(schema, t, by_id):
+    """None, or a label, when the returned type cannot be a type for a schema with an explicit single JSON `type`."""
+    if not isinstance(schema, dict) or not isinstance(schema.get("type"), str) or schema["type"] not in FITS or \
+            "$ref" in schema or any(k in schema for k in ("oneOf", "anyOf", "allOf", "not", "x-rust-type")):
+        return None
+    # only schemas that convert to UNNAMED types are judged: a name hint cannot apply to them, so typify's reuse of an
+    # existing type of that name (its design for named types) cannot be what came back
+    unnamed = (schema["type"] == "array" or
+               (schema["type"] in ("string", "integer", "number", "boolean") and
+                set(schema) <= {"type", "format", "description", "minimum", "maximum", "exclusiveMinimum", "exclusiveMaximum"}
+                and not (schema["type"] == "string" and False)))
+    if not unnamed:
+        return None
+    cur = t
+    for _ in range(3):          # look through newtypes (constrained / named scalars) and boxes
+        if cur["kind"] == "newtype":
+            cur = by_id.get(cur["inner"], cur)
+        elif cur["kind"] == "box":
+            cur = by_id.get(cur["of"], cur)
+        else:
+            break
+    if cur["kind"] == "newtype" or FITS[schema["type"]](cur):
+        return None
+    return "%s->%s" % (schema["type"], cur["kind"])
+
+
 def strip_entry(t):
     return {k: v for k, v in t.items() if k not in ("has_impl",)}
 
@@ -247,6 +285,16 @@ def run(tier, seed, replay=None):
             # id map sanity: the id the API returned names the same thing as iter_types()[id-1]
             ret = (steps[si].get("ret") or {})
             rid = ret.get("id")
+            if step.get("op") == "type" and rid is not None and 1 <= rid <= len(types):
+                # the type returned for a schema has to be a type FOR that schema: its kind must fit the schema's JSON type
+                bad_kind = kind_mismatch(step.get("schema"), types[rid - 1], {t["id"]: t for t in types})
+                if bad_kind:
+                    rep.violation("returned_type_does_not_fit_schema", bad_kind,
+                                  {"step": si, "schema": step.get("schema"), "name_hint": step.get("name"),
+                                   "returned": strip_entry(types[rid - 1])}, case=case)
+                    bad = True
+                    break
+                rep.count("returned_type_fits_schema")
             if step.get("op") == "root" and step.get("expect_name") and rid is not None and 1 <= rid <= len(types):
                 if norm(types[rid - 1]["name"]) != step["expect_name"]:
                     rep.violation("root_id_resolves_to_other_type", "-",
